@@ -52,6 +52,7 @@ def _handler_accepts(node: ast.If, key: str) -> set:
 
 def run(rep: core.Report):
     _r18f(rep)
+    _r18g(rep)
     rep.rule("R18a", "table closure: every option dest is forwarded (or handled directly), every forwarded key has a parse_conf handler, every parameter has a set_settings consumer calling an existing setter, every settings.<x> read by the scripts exists", 300)
     rep.rule("R18b", "encoding agreement: what read_options stores for a key (.true./.false. literal, joined list, raw typed value) is what the key's parse_conf handler parses; store_false flags forward the negated literal", 90)
     rep.rule("R18c", "guard kind: a numeric option (type=int|float, default None) is forwarded under 'is not None', so an explicit 0 reaches the settings exactly as the tag 'KEY = 0' does", 15)
@@ -255,6 +256,35 @@ def _r18f(rep):
                      f"this construction passes default_settings={ds}, but {core.norm(core.src(clash[0]), 80) if clash else ''} — reachable for the same command — passes a different one: with a configuration file the command defaults (NAC on, symmetrised force constants for phonopy-load) are not the ones in force without it, so a tag and the equivalent option give different settings", line=c.lineno)
 
 
+
+def _r18g(rep):
+    """A setting the caller holds is forwarded: a helper's default must not decide what the command already knows."""
+    rep.rule("R18g", "same-name forwarding in the command-line script: when a function has a parameter p and calls a function of the script that has a parameter of the same name p with a default, the call passes p on (by keyword or position); otherwise the helper's default (e.g. load_phonopy_yaml=True in _get_fc_calculator_params) silently replaces what the command knows, and an option or tag such as FC_SYMMETRY has no effect for one of the two commands", 2)
+    tree = core.parse(SCRIPT)
+    defs = {n.name: n for n in tree.body if isinstance(n, ast.FunctionDef)}
+    n_inst = 0
+    for f in defs.values():
+        fparams = {a.arg for a in f.args.args + f.args.kwonlyargs}
+        for c in ast.walk(f):
+            if not (isinstance(c, ast.Call) and isinstance(c.func, ast.Name) and c.func.id in defs and c.func.id != f.name):
+                continue
+            g = defs[c.func.id]
+            gpos = [a.arg for a in g.args.args]
+            ndef = len(g.args.defaults)
+            with_default = set(gpos[len(gpos) - ndef:]) | {a.arg for a, d in zip(g.args.kwonlyargs, g.args.kw_defaults) if d is not None}
+            if any(k.arg is None for k in c.keywords) or any(isinstance(a, ast.Starred) for a in c.args):
+                continue
+            bound = set(gpos[: len(c.args)]) | {k.arg for k in c.keywords}
+            for p_ in sorted(fparams & with_default):
+                if p_ in ("log_level", "filename", "verbose"):
+                    continue  # reporting knobs: a different verbosity changes no result
+                n_inst += 1
+                rep.instance("R18g", SCRIPT, f.name, f"{g.name}(... {p_} ...) called from {f.name}", p_ in bound,
+                             f"{f.name} has '{p_}' but calls {g.name} without it, so {g.name} uses its default {core.src(dict(zip(gpos[len(gpos) - ndef:], g.args.defaults)).get(p_)) if p_ in gpos[len(gpos) - ndef:] else '?'}: what the command decided (which of phonopy / phonopy-load is running, which calculator) is replaced by the helper's assumption, and the same setting acts differently on the two routes", line=c.lineno)
+    if n_inst < 2:
+        raise AnalysisError(f"R18g: only {n_inst} same-name forwarding sites found in {SCRIPT}")
+
+
 def selftest():
     V = []
     b = lambda name, file, old, new, rule, expect="", **kw: V.append(dict(name=name, kind="break", file=file, old=old, new=new, rule=rule, expect=expect, **kw))
@@ -272,4 +302,5 @@ def selftest():
     n("option read through arg_list.get under is not None", SETT, '        if "rd_temperature" in arg_list:\n            if self._args.rd_temperature is not None:\n                self._confs["random_displacement_temperature"] = (\n                    self._args.rd_temperature\n                )\n', '        rd_temperature = arg_list.get("rd_temperature")\n        if rd_temperature is not None:\n            self._confs["random_displacement_temperature"] = rd_temperature\n')
     b("option merged with its old spelling through 'or'", SETT, '        if "rd_temperature" in arg_list:\n            if self._args.rd_temperature is not None:\n                self._confs["random_displacement_temperature"] = (\n                    self._args.rd_temperature\n                )\n', '        rd_temperature = arg_list.get("rd_temperature") or arg_list.get("temperature")\n        if rd_temperature is not None:\n            self._confs["random_displacement_temperature"] = rd_temperature\n', "R18c", "rd_temperature")
     b("phonopy-load with --config loses the command defaults", SCRIPT, "                args=args,\n                default_settings=argparse_control,\n            )", "                args=args,\n            )", "R18f", "_read_phonopy_settings")
+    b("fc-calculator helper called without the command flag", SCRIPT, "    fc_calculator, _ = _get_fc_calculator_params(\n        settings, load_phonopy_yaml=load_phonopy_yaml\n    )\n    if settings.fc_symmetry and fc_calculator == \"traditional\":", "    fc_calculator, _ = _get_fc_calculator_params(settings)\n    if settings.fc_symmetry and fc_calculator == \"traditional\":", "R18g", "load_phonopy_yaml")
     return V
